@@ -24,7 +24,7 @@ META = {
              "block rotations (pure multi-line insertions, pinned family only); multi-file runs (attribution). Seeded: "
              "random corpus file x random width x random edit chain, random multi-file sets. A case is distinct by "
              "(hash of the file contents, flags, output format) and non-trivial when at least one file differs from "
-             "its formatted text, i.e. a diff had to be printed and was applied."),
+             "its formatted text, i.e. a diff had to be printed and was applied. The pinned special cases are repeated under --color always / never for the three machine-readable formats."),
     "assumptions": [
         "`sv libfmt` (stylua_lib built from the same tree, Config built directly from Rust enum values) is the reference for 'its formatted text'",
         "a line ends at LF, CRLF or a lone CR (the three forms Lua's lexer treats as a line break); JSON line numbers are 0-based and inclusive, a mismatch with empty `original` is an insertion before original_start_line",
